@@ -25,6 +25,8 @@ Import ListNotations.
 Local Open Scope Q_scope.
 Definition chk nS nA P R av ab ini g V Qv Pi iv tl :=
   @c01_check Q NumQ (mk_mdp nS nA P R av ab ini g) (mk_out V Qv Pi iv) tl.
+Definition chkU nS nA P R av ab ini g V Qv Pi iv N :=
+  @c01_undisc_check Q NumQ (mk_mdp nS nA P R av ab ini g) (mk_out V Qv Pi iv) N.
 Definition mir_vec nS nA P R av ab ini g (mi : nat) eps (Vimpl : list Q) tol :=
   let m := mk_mdp nS nA P R av ab ini g in
   let r := @vi_vec Q NumQ m mi eps in
@@ -140,6 +142,50 @@ def model_masks(P, R, av, absf, g):
     return absorbing, unable
 
 
+def undisc_certificate(case, res, out):
+    """expected-lossy-steps vector N of the reported (idealised uniform) policy, solved exactly;
+    None if it does not exist (a closed class of the policy contains a lossy state)"""
+    sl, al = res["state_list"], res["action_list"]
+    P, R, av, absf, ini = gen_mdp.arrays(case["mdp"], sl, al)
+    g = F(case["mdp"]["gamma"])
+    n, nA = len(P), len(P[0])
+    absorbing, unable = model_masks(P, R, av, absf, g)
+    masked = [a or u for a, u in zip(absorbing, unable)]
+    V = [vlib.frac(v) for v in out["V"]]
+    Vz = [F(0) if unable[s] else V[s] for s in range(n)]
+    pi = [[vlib.frac(x) if not isinstance(x, str) else F(0) for x in row] for row in out["pi"]]
+    up = []
+    for s in range(n):
+        if masked[s]:
+            k = sum(1 for a in range(nA) if av[s][a])
+            up.append([F(1, k) if av[s][a] else F(0) for a in range(nA)])
+        else:
+            k = sum(1 for a in range(nA) if pi[s][a] > 0)
+            if k == 0:
+                return None
+            up.append([F(1, k) if pi[s][a] > 0 else F(0) for a in range(nA)])
+    Pm = [[[F(0) if masked[s] else P[s][a][k] for k in range(n)] for a in range(nA)] for s in range(n)]
+    Rm = [[F(0) if masked[s] else sum(R[s][a][k] * P[s][a][k] for k in range(n)) for a in range(nA)] for s in range(n)]
+    qpol = [sum(up[s][a] * (Rm[s][a] + g * sum(Pm[s][a][k] * Vz[k] for k in range(n))) for a in range(nA)) for s in range(n)]
+    lossy = [not (Vz[s] <= qpol[s]) for s in range(n)]
+    Ppi = [[sum(up[s][a] * Pm[s][a][k] for a in range(nA)) for k in range(n)] for s in range(n)]
+    # states that can reach a lossy state under Ppi
+    can = list(lossy)
+    for _ in range(n):
+        can = [can[s] or any(Ppi[s][k] > 0 and can[k] for k in range(n)) for s in range(n)]
+    idx = [s for s in range(n) if can[s]]
+    if not idx:
+        return [F(0)] * n
+    A = [[(F(1) if i == j else F(0)) - Ppi[i][j] for j in idx] for i in idx]
+    sol = solve_linear(A, [F(1) if lossy[i] else F(0) for i in idx])
+    if sol is None or any(x < 0 for x in sol):
+        return None
+    N = [F(0)] * n
+    for i, x in zip(idx, sol):
+        N[i] = x
+    return N
+
+
 def search_failing(case, res, planner, out):
     """clause-by-clause evaluation of the property on the implementation output with the exact V*"""
     sl, al = res["state_list"], res["action_list"]
@@ -194,7 +240,9 @@ def run(ctx):
     if ctx.replay_case:
         cases = [ctx.replay_case["detail"]["case"]]
     else:
-        cases = [gen_case(ctx.rng, tier) for _ in range(ncases)]
+        import glob, json, os
+        corpus = [json.load(open(f)) for f in sorted(glob.glob(os.path.join(vlib.ROOT, "corpus", "C01", "*.json")))]
+        cases = corpus + [gen_case(ctx.rng, tier) for _ in range(ncases)]
     impl = ctx.impl("c01_impl.py", {"cases": cases}, shards=8 if tier == "quick" else 16)["results"]
     terms, meta = [], []
     feats = {}
@@ -218,9 +266,17 @@ def run(ctx):
             iv = out["initial_value"]
             terms.append("chk %s %s %s %s %s %s" % (mt, qlist(out["V"]), Qv, qmat(out["pi"]), q(iv), tl))
             meta.append(("chk", i, planner))
+            undisc = F(case["mdp"]["gamma"]) == 1
+            if undisc and planner in ("vi_vec", "vi_dict") and out["converged"]:
+                N = undisc_certificate(case, res, out)
+                out["_N"] = N
+                if N is not None:
+                    terms.append("chkU %s %s %s %s %s %s" % (mt, qlist(out["V"]), Qv, qmat(out["pi"]), q(iv), qlist(N)))
+                    meta.append(("chkU", i, planner))
             # mirror: only when the loop is short enough for exact arithmetic
-            if planner in ("vi_vec", "vi_dict") and out["iterations"] <= (25 if tier == "quick" else 60) and F(case["mdp"]["gamma"]) < 1:
-                # V as the loop leaves it: placeholder states are overwritten afterwards (gamma<1: none)
+            if planner in ("vi_vec", "vi_dict") and out["iterations"] <= (25 if tier == "quick" else 60) \
+                    and not any(res["unable_vec"]):
+                # V as the loop leaves it (placeholder states are overwritten afterwards: skip those cases)
                 terms.append("%s %s %s %s %s %s" % ("mir_vec" if planner == "vi_vec" else "mir_dict", mt,
                                                    nat(case["max_iterations"]), q(case["max_residual"]),
                                                    qlist(out["V"]), q(F(1, 10**9) * max([F(1)] + [abs(vlib.frac(v)) for v in out["V"]]))))
@@ -230,7 +286,7 @@ def run(ctx):
             if isinstance(v, bool):
                 feats[k] = feats.get(k, 0) + int(v)
     vals = ctx.coq(PRE, terms, shard=12 if tier == "quick" else 40)
-    nchk = nmir = drift = ambiguous = 0
+    nchk = nmir = drift = ambiguous = nund = npi1 = nocert = 0
     distinct = set()
     for (kind, i, planner), v in zip(meta, vals):
         case, res = cases[i], impl[i]
@@ -257,6 +313,12 @@ def run(ctx):
                 else:
                     detail["correspondence"] = "model/VI.v:c01_check (theorem props/C01.v) rejects the implementation's output"
                     ctx.violation("C01:%s:certificate-rejects:%s" % (planner, "+".join(failed)), detail, found=False)
+        elif kind == "chkU":
+            nund += 1
+            if not all(v):
+                ctx.violation("C01:%s:undiscounted-certificate-rejects" % planner,
+                              {"case": case, "planner": planner, "clauses": dict(zip(["c_nonpos", "c_rnonpos", "c_N"], v)), "impl": {k: x for k, x in out.items() if k != "_N"},
+                               "correspondence": "model/VI.v:c01_undisc_check (theorem C01_undiscounted_lower)"}, found=False)
         else:
             nmir += 1
             its, close = v
@@ -264,11 +326,55 @@ def run(ctx):
                 drift += 1   # covered by the certificate: drift-cleared unless the certificate also failed
             if its != out["iterations"]:
                 ambiguous += 1
+    # undiscounted: policy iteration against the bracket established for value iteration
+    for i, (case, res) in enumerate(zip(cases, impl)):
+        if "error" in res or F(case["mdp"]["gamma"]) != 1:
+            continue
+        pl = res["planners"]
+        vi, pi_ = pl.get("vi_vec", {}), pl.get("pi", {})
+        if "error" in vi or "error" in pi_ or not vi.get("converged") or not pi_.get("converged"):
+            continue
+        N = vi.get("_N")
+        if N is None:
+            nocert += 1
+            continue
+        npi1 += 1
+        eps = F(case["max_residual"])
+        Vv = [vlib.frac(x) for x in vi["V"]]
+        Vp = [vlib.frac(x) for x in pi_["V"]]
+        scale = max([F(1)] + [abs(x) for x in Vv])
+        delta = eps + F(3, 10**5) * scale + F(1, 10**7)
+        for s in range(len(Vv)):
+            lo, hi = Vv[s] - delta * N[s] - F(1, 10**6) * scale, Vv[s] + eps + F(1, 10**6) * scale
+            if not (lo <= Vp[s] <= hi):
+                # is PI's value itself a fixed point of the optimality equation (stuck at a non-maximal solution)?
+                sl, al = res["state_list"], res["action_list"]
+                P, R, av, absf, ini = gen_mdp.arrays(case["mdp"], sl, al)
+                absorbing, unable = model_masks(P, R, av, absf, F(1))
+                Vz = [F(0) if unable[k] else Vp[k] for k in range(len(Vp))]
+                fixed = True
+                for k in range(len(Vp)):
+                    if absorbing[k] or unable[k]:
+                        continue
+                    best = max(sum(P[k][a][j] * (R[k][a][j] + Vz[j]) for j in range(len(Vp))) for a in range(len(al)) if av[k][a])
+                    if abs(best - Vz[k]) > F(1, 10**6) * scale:
+                        fixed = False
+                sig = "C01:pi:undiscounted:non-maximal-fixed-point-of-optimality-equation" if fixed and Vp[s] < lo \
+                    else "C01:pi:undiscounted:value-outside-optimal-bracket"
+                ctx.violation(sig, {"case": case, "planner": "pi", "state_index": s, "pi_value": str(Vp[s]),
+                                    "optimal_bracket": [str(lo), str(hi)], "vi_value": str(Vv[s]),
+                                    "failing_clause": "policy iteration's state value is not the optimal undiscounted value (bracket from value iteration: theorems C01_undiscounted_lower/upper)"},
+                              found=True)
+                break
+    for r in impl:
+        for o in r.get("planners", {}).values():
+            o.pop("_N", None)
     ctx.coverage.update({
         "evaluations": nchk + nmir,
         "distinct_nontrivial": len(distinct),
         "rule": "MDPs from harness/gen_mdp.py (1..%d states, 1..3 actions, state-dependent action sets, k/8 probabilities, zero entries, duplicate rows for exact ties, explicit/implicit absorbing states, multi-state initial distributions, gamma in {1/2,3/4,7/8,9/10,19/20,1}); each run through vi_vec, vi_dict and PolicyIteration; distinct = structural hash of the MDP; non-trivial = at least one non-absorbing state (all generated cases)" % (5 if tier == "quick" else 7),
         "samples": [{"case": cases[0], "impl": impl[0]}] if cases else [],
-        "certificate_checks": nchk, "mirror_runs": nmir, "mirror_drift": drift, "mirror_iteration_mismatch": ambiguous,
+        "certificate_checks": nchk, "undiscounted_certificates": nund, "undiscounted_without_N_certificate": nocert,
+        "undiscounted_pi_vs_vi_bracket": npi1, "mirror_runs": nmir, "mirror_drift": drift, "mirror_iteration_mismatch": ambiguous,
         "input_features": feats, "cases": len(cases),
     })
